@@ -4,6 +4,7 @@
   implementation line and insists it reproduces the input, so parser slips cannot hide differences.
 -/
 import UpdaterModel.Model.Ops
+import UpdaterModel.Model.Sched
 
 namespace Updater.Proto
 open Updater
@@ -103,7 +104,21 @@ structure Obs where
   sj : JFile SState
   pj : JFile PatchesState
   pd : Option (List (Nat × Art) × List String)
+  la : List Act := []
+  lb : Nat := 0
 deriving Repr, Inhabited
+
+def actChar : Act → Char
+  | .A => 'A' | .R => 'R' | .T => 'T' | .U => 'U' | .N => 'N'
+def renderActs (l : List Act) : String := if l.isEmpty then "~" else String.ofList (l.map actChar)
+def parseActs (s : String) : Option (List Act) :=
+  if s == "~" then some [] else
+  mapMOpt (fun c => if c == 'A' then some Act.A else if c == 'R' then some .R else if c == 'T' then some .T
+    else if c == 'U' then some .U else if c == 'N' then some .N else none) s.toList
+where
+  mapMOpt {α β} (f : α → Option β) : List α → Option (List β)
+    | [] => some []
+    | x :: xs => do let y ← f x; let ys ← mapMOpt f xs; pure (y :: ys)
 
 def renderArt : Nat × Art → String
   | (n, .emptyDir) => s!"{n}:E"
@@ -121,11 +136,11 @@ def renderObs (o : Obs) : String :=
   let pd := match o.pd with
     | none => "pd=M"
     | some (arts, junk) => s!"pd={joinWith "," (arts.map renderArt)} junk={joinWith "," ((sortStrs junk).map encTok)}"
-  s!"ret={renderRet o.ret} net={joinWith "," (o.net.map renderNet)} {sj} {pj} {pd}"
+  s!"ret={renderRet o.ret} net={joinWith "," (o.net.map renderNet)} {sj} {pj} {pd} la={renderActs o.la} lb={o.lb}"
 
 /-- Observation of a model world (directory listing sorted by number). -/
-def obsOf (w : World) (ret : Ret) (net : List NetAct) : Obs :=
-  { ret := ret, net := net, sj := w.disk.stateJson, pj := w.disk.patchesJson,
+def obsOf (w : World) (ret : Ret) (net : List NetAct) (la : List Act := []) (lb : Nat := 0) : Obs :=
+  { ret := ret, net := net, sj := w.disk.stateJson, pj := w.disk.patchesJson, la := la, lb := lb,
     pd := match w.disk.patches with
       | none => none
       | some p => some ((sortNats (p.arts.map (·.1)).eraseDups).filterMap (fun n => (p.arts.lookup n).map (n, ·)), p.junk) }
@@ -153,7 +168,8 @@ def diffFields (a b : Obs) : List String :=
         | _, _ => true) then ["pd"] else []) ++
   (if (match a.pd, b.pd with
         | some (_, x), some (_, y) => sortStrs x != sortStrs y
-        | _, _ => false) then ["junk"] else [])
+        | _, _ => false) then ["junk"] else []) ++
+  (if a.la != b.la || a.lb != b.lb then ["locks"] else [])
 
 /-- The storage directory an observation shows. -/
 def diskOfObs (o : Obs) : Disk :=
@@ -270,7 +286,9 @@ def parseObs (parts : List String) : Option Obs := do
       let arts ← mapM' parseArt (splitList "," pds)
       let junk ← f.lookup "junk" >>= (fun s => mapM' decTok (splitList "," s))
       pure (some (arts, junk))
-  pure { ret := ret, net := net, sj := sj, pj := pj, pd := pd }
+  let la ← f.lookup "la" >>= parseActs
+  let lb ← f.lookup "lb" >>= String.toNat?
+  pure { ret := ret, net := net, sj := sj, pj := pj, pd := pd, la := la, lb := lb }
 
 def parseBoolOpt (s : String) : Option (Option Bool) :=
   if s == "!" then some none else if s == "1" then some (some true) else if s == "0" then some (some false) else none
